@@ -124,11 +124,13 @@ def h_two_calls(E):
     E.oblige("canary.two", tr1 + tr2 == ts, assume_after=False)
 
 
+from . import loops  # noqa: E402
+
 TASKS = [
     Task("assess", h_contract),
     Task("init", h_init),
     Task("history2", h_two_calls),
-]
+] + loops.td7_tasks({"C15"})
 
 TRUSTED = [
     "reals for float returns (1e8 sentinel exact)",
@@ -142,4 +144,4 @@ ASSUMPTIONS = [
 NOT_COVERED = [
     "steps of episodes that end before learning_starts belong to no window (documented warm-up)",
 ]
-REPLAY = {"assess.": "c15_assess", "history2.": "c15_assess"}
+REPLAY = {"assess.": "c15_assess", "history2.": "c15_assess", "train_td7": "loops_native"}
